@@ -254,3 +254,50 @@ prop("C15",
      "Bounded depth/threads/ops/values.",
      "explicit enumeration of operation sequences + stateless model checking (deviation-bounded DFS) with linearizability checking",
      "DESIGN.md 4/C15")
+
+
+prop("C08",
+     [dict(name="C08", src="C08.cpp", cxxflags=LOCK_FLAGS, deadline=dict(quick=100, thorough=900), required_cover=28)],
+     SCHED_RULE + " Instances: guarded, guarded_opt (on/off) x {mutex, timed_mutex}; shared_guarded, "
+     "shared_guarded_opt (on/off), ordered_guarded, deferred_guarded x the four mutex types. Programs: holder in "
+     "{none, exclusive handle, shared handle, inside modify(), inside modify_detach()} that either keeps its handle "
+     "for the whole attempt or releases it concurrently by destruction / unlock() / move-construction / "
+     "move-assignment (target holding a lock of another wrapper); contender using each of try_lock, try_lock_for, "
+     "try_lock_until, try_lock_shared, try_lock_shared_for, try_lock_shared_until; optional third thread making a "
+     "blocking acquisition after the release.",
+     "Oracles: returned handle is non-null iff the calling thread holds the lock (lock model) when the call "
+     "returns, and refers to the wrapped object; against a handle held for the whole attempt the untimed forms "
+     "return null without ever blocking and the timed forms return null only after their time-out fired (a "
+     "blocking implementation deadlocks the program: reported); reader-vs-reader succeeds on shared-capable "
+     "mutexes; the lock stays held while a non-null handle lives; after unlock() the handle is null and the lock "
+     "free; move-assignment releases the target's previous lock; releasing twice / never (lock model: bad unlock, "
+     "mutex still locked at the end, third thread blocked = deadlock); locking disabled: zero mutex operations, "
+     "non-null usable handle even while another handle is held, never blocks. Vacuity: null, non-null and "
+     "disabled outcomes must all have been observed.",
+     A_COMMON,
+     "Exhaustive deviation-bounded exploration of contender x holder x life-cycle x mutex type x enable flag over "
+     "the real handle code, with all time-out placements.",
+     "Bounded to one contender, one holder, one third thread.",
+     "stateless model checking of the implementation: deviation-bounded DFS over a controlled scheduler",
+     "DESIGN.md 4/C08")
+
+
+prop("C06",
+     [dict(name="C06", src="C06.cpp", cxxflags=LOCK_FLAGS, deadline=dict(quick=100, thorough=1200))],
+     SCHED_RULE + " Instances: deferred_guarded<Pair,M> for shared_timed_mutex and mutex (thorough: all four). "
+     "Alphabet: modify_detach, modify_async (value / void / throwing), shared handle through each acquisition form "
+     "released at once or held across the next 1-2 operations of the same thread, load. All 2-thread programs with "
+     "<=2 ops per thread and all 3-thread programs with 1 op per thread that contain 1-4 submissions (thorough: "
+     "3 threads with one 2-op thread); each ends with lock_shared() or modify_detach(nop) made at quiescence.",
+     "Every functor has a unique id and logs its execution. Oracles: no id executes twice at any time and each "
+     "executes exactly once after quiescence plus one lock_shared / modify call; functor write windows overlap "
+     "neither each other nor any reader window; value stable while a shared handle is held; execution order "
+     "respects program order and real time (submission returned before the other was invoked); no stranding: the "
+     "access granted at quiescence already sees every accepted modification; every modify_async future is then "
+     "ready and holds its functor's result or exception; deadlock detector; race detector (pending flag vs queue).",
+     A_COMMON + [A_MM],
+     "Exhaustive deviation-bounded exploration of submitters (direct and queued path), readers holding and "
+     "releasing shared handles and drainers over the real deferred_guarded.",
+     "Bounded threads/ops; futures inspected with wait_for(0) only.",
+     "stateless model checking of the implementation: deviation-bounded DFS over a controlled scheduler",
+     "DESIGN.md 4/C06")
